@@ -722,6 +722,12 @@ def run(ctx):
                 okw = any(k.startswith("cbh_codec") for k, _, _ in sl["calls"])
                 ok = ok and okw
                 det += f"; write_atomic receives the compressed buffer: {okw}"
+                # ... on EVERY path: nothing reaches the write without having gone through compress (a payload-dependent
+                # "already in stored form" shortcut makes the writer and the always-inflating reader disagree)
+                wbbs = [bb for bb, t in b.calls() if wa_shell.key in callee_paths(t["callee"])]
+                okm, _off = b.must_pass([0], [bb for bb, _ in cs], wbbs)
+                ok = ok and okm
+                det += f"; every path to write_atomic passes compress: {okm}"
         if ok and m == "get":
             t = cs[0][1]
             sl = Slice(b).run(t["args"][0])
